@@ -279,6 +279,7 @@ pub struct World {
 	pub builder: Node,
 	pub rng: SimRng,
 	pub opts: Options,
+	pub proof_ctr: u64,
 }
 
 pub fn header_time_plus(h: &BlockHeader, secs: i64) -> chrono::DateTime<chrono::Utc> {
@@ -323,6 +324,7 @@ impl World {
 			builder,
 			rng: rng.fork("world"),
 			opts,
+			proof_ctr: 0,
 		}
 	}
 
@@ -496,15 +498,22 @@ impl World {
 		consensus::next_difficulty(prev.height + 1, iter)
 	}
 
-	/// Solve PoW (or, for free-difficulty worlds, leave a placeholder proof).
-	pub fn mine(&self, b: &mut Block, diff: Difficulty) {
+	/// Solve PoW (or, for free-difficulty worlds, attach a unique PRNG-drawn placeholder proof:
+	/// the header hash is the hash of the proof, so it must differ per block).
+	pub fn mine(&mut self, b: &mut Block, diff: Difficulty) {
 		let edge_bits = global::min_edge_bits();
 		b.header.pow.proof.edge_bits = edge_bits;
 		if self.cfg.free_difficulty {
-			// deterministic placeholder proof (SKIP_POW never verifies it)
-			b.header.pow.proof = grin_core::pow::Proof::zero(global::proofsize());
+			self.proof_ctr += 1;
+			let mut r = self.rng.fork(&format!("proof{}", self.proof_ctr));
+			let mask = (1u64 << edge_bits) - 1;
+			let mut nonces = std::collections::BTreeSet::new();
+			while nonces.len() < global::proofsize() {
+				nonces.insert(r.next_u64() & mask);
+			}
+			b.header.pow.proof = grin_core::pow::Proof::new(nonces.into_iter().collect());
 			b.header.pow.proof.edge_bits = edge_bits;
-			b.header.pow.nonce = self.blocks.len() as u64;
+			b.header.pow.nonce = self.proof_ctr;
 		} else {
 			b.header.pow.nonce = 0;
 			pow::pow_size(&mut b.header, diff, global::proofsize(), edge_bits).expect("pow");
